@@ -13,6 +13,8 @@ package memadp
 import (
 	"encoding/json"
 	"errors"
+	"runtime"
+	"strings"
 	"sync"
 	"time"
 
@@ -61,7 +63,7 @@ var (
 
 // Adapter is the in-memory adapter.
 type Adapter struct {
-	mu sync.Mutex
+	mu hookMutex
 
 	open bool
 	// Maximum number of records to return
@@ -141,6 +143,26 @@ func (a *Adapter) createSystemTopic() {
 		public:    []byte(`{"fn": "System"}`),
 		tagIdx:    map[string]struct{}{},
 	}
+}
+
+// PreHook, when set, is called with the adapter method's name BEFORE the adapter lock is taken: a harness can run
+// another request to completion at this store-call boundary (an interleaving gate). It must not be re-entered.
+var PreHook func(method string)
+
+// hookMutex is the adapter lock; taking it reports the calling adapter method to PreHook first.
+type hookMutex struct{ sync.Mutex }
+
+func (m *hookMutex) Lock() {
+	if h := PreHook; h != nil {
+		if pc, _, _, ok := runtime.Caller(1); ok {
+			name := runtime.FuncForPC(pc).Name()
+			if i := strings.LastIndex(name, "."); i >= 0 {
+				name = name[i+1:]
+			}
+			h(name)
+		}
+	}
+	m.Mutex.Lock()
 }
 
 func (a *Adapter) hook(method string, args ...any) error {
